@@ -7,7 +7,7 @@
    reparse = Element.from_tag(table.serialize()) / Document.save + reload: maps recomputed, caches empty. *)
 From Coq Require Import List ZArith Lia Bool Arith.
 Import ListNotations.
-Require Import Vault Row Table Grid Tableabs Transform TableB TableBabs TableBproof TableBproof2 TableBproof3 TableBproof4 TableBproof5 TableBproof6 TableBx.
+Require Import Vault Row Table Grid Tableabs Transform TableB TableBabs TableBproof TableBproof2 TableBproof3 TableBproof4 TableBproof5 TableBproof6 TableBspan TableBx.
 Open Scope Z_scope.
 
 (* ---- the full statement: along EVERY history of mutators, cache-filling reads and `repeated` setters on live handles,
@@ -75,15 +75,42 @@ Proof. exact b_live_spec. Qed.
 Print Assumptions C02_live_setters.
 
 (* rstrip / optimize_width / transpose (layer-A models: Transform.v of C17): whatever the caches held, the state afterwards is
-   the state of a fresh parse of the new XML — coherent, caches empty — and every read answers accordingly *)
-Theorem C02_transformations_end_fresh : forall (a : calg) (b : bstate) (x : xop) (b' : bstate), Coh b -> b_xform a b x = Some b' ->
-  Coh b' /\ t_xform a (ax b) x = Some (ax b') /\ tcache b' = [] /\ ccache b' = [] /\ b' = reparse b'.
+   the state of a fresh parse of the new XML — coherent, caches empty *)
+Theorem C02_transformations_end_fresh : forall (a : calg) (b : bstate) (o : xop) (t' : tstate) (r : bool), Coh b ->
+  match o with XTranspose | XRstrip _ | XOptimize => True | _ => False end -> x_step a true (ax b) o = Some (t', r) ->
+  exists b', b_xstep a b o = Some (b', r) /\ ax b' = t' /\ Coh b' /\ tcache b' = [] /\ ccache b' = [] /\ b' = reparse b'.
 Proof. exact xform_coh. Qed.
 Print Assumptions C02_transformations_end_fresh.
-Theorem C02_reads_after_a_transformation : forall (a : calg) (b : bstate) (x : xop) (b' : bstate) (q : bread), Coh b -> b_xform a b x = Some b' ->
-  snd (b_read b' q) = snd (b_read (reparse b') q) /\ proj (snd (b_read b' q)) = gb_read (abs_t (ax b')) q.
-Proof. exact xform_reads. Qed.
-Print Assumptions C02_reads_after_a_transformation.
+(* set_span / del_span (and the three above): the cache-filling get_cell reads of the call, then its write through set_cells:
+   the XML is Transform's, coherence is kept (WF of the new XML is C17's theorem set_span_model_grid / del_span_law_model) *)
+Theorem C02_span_operations_keep_coh : forall (a : calg) (b : bstate) (o : xop) (t' : tstate) (r : bool), Coh b -> in_alphabet o ->
+  x_step a true (ax b) o = Some (t', r) -> WF t' -> exists b', b_xstep a b o = Some (b', r) /\ ax b' = t' /\ Coh b'.
+Proof. exact xstep_coh. Qed.
+Print Assumptions C02_span_operations_keep_coh.
+(* the span steps of the statement above are the steps the correspondence checker evaluates on every set_span / del_span of a
+   history (TableBspan: for a given written content), at the content C17's model writes *)
+Theorem C02_set_span_is_the_checked_step : forall (a : calg) (b : bstate) (x y z t : Z) (m : bool) (mid : Z) (b' : bstate) (r : bool),
+  b_xstep a b (XSetSpan x y z t m mid) = Some (b', r) -> exists cells, b_set_span_given x y z t r cells b = Some b'.
+Proof. exact xstep_set_span_given. Qed.
+Print Assumptions C02_set_span_is_the_checked_step.
+Theorem C02_del_span_is_the_checked_step : forall (a : calg) (b : bstate) (x y : Z) (b' : bstate) (r : bool),
+  b_xstep a b (XDelSpan x y) = Some (b', r) -> exists cells, b_del_span_given x y r cells b = Some b'.
+Proof. exact xstep_del_span_given. Qed.
+Print Assumptions C02_del_span_is_the_checked_step.
+(* any call made of cache-filling reads followed by one write of the C01 alphabet *)
+Theorem C02_reads_then_write : forall (b : bstate) (rs : list bop) (o : top) (t' : tstate), Coh b -> Forall is_read rs -> op_ok o ->
+  t_step (ax b) o = Some t' -> exists b', b_mut true (tB_run b rs) o = Some b' /\ ax b' = t' /\ Coh b'.
+Proof. exact reads_then_write. Qed.
+Print Assumptions C02_reads_then_write.
+(* get_row(y, clone=False).rstrip(aggressive): the cached wrapper recomputes its map and drops its cell cache *)
+Theorem C02_live_row_rstrip : forall (a : calg) (aggr : bool) (y : Z) (b : bstate), Coh b -> exists b', b_live_rstrip a aggr y b = Some b' /\ Coh b'.
+Proof. exact live_rstrip_coh. Qed.
+Print Assumptions C02_live_row_rstrip.
+(* c = table.append_column(column); c.repeated = n : the owning table recomputes its maps (F8 repair for columns) *)
+Theorem C02_live_column_setter : forall (rep : nat) (st : Z) (n : nat) (b : bstate), Coh b ->
+  Coh (b_live_column rep st n b) /\ ax (b_live_column rep st n b) = t_append_column n st (ax b).
+Proof. exact live_column_coh. Qed.
+Print Assumptions C02_live_column_setter.
 
 (* the boolean that the correspondence evaluates on the dumped implementation state IS the invariant *)
 Theorem C02_cohb_is_Coh : forall b : bstate, cohb b = true <-> CohM b.
